@@ -47,6 +47,14 @@ CLAIMED = {
                 note='Trusted: z3, AST rewrite, the numeral readers and the transitive-reset/numbering reference. Ownership of counters by package macros beyond the skeleton '
                      'constructs (amsthm, eqnarray rows, \\nonumber) is outside the claim; Alph of 0 is outside the claimed range.',
                 ref='DESIGN.md section 5 C08'),
+    'C09': dict(level='model_checking',
+                text='Bounded exhaustive over histories of numbered objects, \\label, \\ref and \\pageref written as LaTeX source (all histories of length <= 3 plus a seed-rotated '
+                     'eighth of length 4 in quick; all of length 4 and a twelfth of length 5 in thorough; 6 long histories with several pending references) with label texts of '
+                     'symbolic characters over {blank, a, b}: every reference whose stripped text equals a defined label is the labelled object itself (identity), whether '
+                     'the label comes before or after; every other reference resolves to no document node; labelled objects carry their label as id; no pending entry remains for a defined label.',
+                note='Each label is defined at most once (DESIGN.md section 3); references may coincide with any label or none - decided by z3. Only sections and equations carry '
+                     'labels in the skeletons; bibliography keys are outside the claim.',
+                ref='DESIGN.md section 5 C09'),
     'C15': dict(level='model_checking',
                 text='Bounded exhaustive over request histories of the real generator through its call interface: 7 templates of the documented grammar x histories of 2-4 '
                      '(thorough 4-6) requests x every presence pattern of the bindings (symbolic booleans) x ALL binding values of bounded length over {a,b,blank,/} (symbolic: '
